@@ -14,6 +14,7 @@ import Driver.PmsOps
 import Driver.BusOps
 import Driver.ElectricOps
 import Driver.ShaftOps
+import Driver.CompOps
 open Lean Driver
 
 def dispatch (op : String) (j : Json) : Except String Json :=
@@ -25,6 +26,7 @@ def dispatch (op : String) (j : Json) : Except String Json :=
   | "bus" => busOp op j
   | "electric" => electricOp op j
   | "shaft" => shaftOp op j
+  | "comp" => compOp op j
   | _ => .error s!"unknown op family in '{op}'"
 
 def handle (line : String) : String :=
